@@ -260,7 +260,7 @@ func (fr *Frame) isCellAlloc(a *ssa.Alloc) bool {
 func (fr *Frame) coerce(v *Val, t types.Type) *Val { return v }
 
 func (fr *Frame) zeroArray(st *State, ref *Term, et types.Type, n *Term) {
-	if _, ok := et.Underlying().(*types.Struct); ok {
+	if _, ok := et.Underlying().(*types.Struct); ok && !isOpaque(et) {
 		return // struct elements live at elem(ref,i); zeroing not modelled (values unknown)
 	}
 	h := Heap{st: st, log: curLog}
